@@ -36,6 +36,8 @@ ALSO = {
     "C08-decode-pooled-builder": ["C12", "C05", "C13"], "C05-unpacked-decoder-partial-progress": ["C08"], "C16-parseoptions-values-share-array": ["C12"], "C06-ucs2-handwritten-surrogates": ["C05", "C14"],
     "C02-fixedlen-padding-partly-cleared": ["C01", "C20"], "C11-writer-pool-keeps-error": ["C01", "C20", "C13"], "C03-packed-decoder-escape-check-hoisted": ["C08"], "C13-status-text-cache": [],
     "C07-batch-fallback-drops-reference": ["C09"], "C09-ucs2-boundary-mask-low-surrogate": ["C14", "C07"], "C14-cutpoints-grid-begin": ["C07", "C06"],
+    "C05-unpack-last-group-hoisted": ["C08", "C06"], "C07-refuse-by-naive-count": ["C14"],
+    "C10-enquirelink-embedded-resp": ["C12", "C13"], "C15-respauth-append-status-slice": ["C12"],
     "C12-reader-scratch-view": ["C13"], "C13-shared-sorter": ["C09"], "C07-total-from-size": ["C06"], "C03-cmpp20-dest-block-u8": ["C01"],
 }
 
